@@ -240,17 +240,16 @@ def validate_traces(spec, traces, workdir, constants=None, init='TInit', next_='
     rejected = {}
     bad = [i for i in range(len(traces)) if i not in accepted]
     if bad:
-        # localise: re-run the rejected traces verbosely and take the furthest position reached
-        sub = [traces[i] for i in bad[:400]]
-        with open(tf, 'w') as f:
-            json.dump(sub, f)
-        r2 = run(spec, cfg, workdir=workdir, workers=1, timeout=timeout, env={'TRACE_FILE': tf, 'TRACE_VERBOSE': '1'})
-        far = {}
-        for v in printed_values(r2.output):
-            if len(v) == 3 and v[0] == 'AT':
-                far[int(v[1]) - 1] = max(far.get(int(v[1]) - 1, 0), int(v[2]))
-        for j, i in enumerate(bad[:400]):
-            rejected[i] = far.get(j, 1) - 1          # number of events matched
-        for i in bad[400:]:
-            rejected[i] = None
+        # localise: re-run the rejected traces verbosely (in batches) and take the furthest position reached
+        for lo in range(0, len(bad), 400):
+            part = bad[lo:lo + 400]
+            with open(tf, 'w') as f:
+                json.dump([traces[i] for i in part], f)
+            r2 = run(spec, cfg, workdir=workdir, workers=1, timeout=timeout, env={'TRACE_FILE': tf, 'TRACE_VERBOSE': '1'})
+            far = {}
+            for v in printed_values(r2.output):
+                if len(v) == 3 and v[0] == 'AT':
+                    far[int(v[1]) - 1] = max(far.get(int(v[1]) - 1, 0), int(v[2]))
+            for j, i in enumerate(part):
+                rejected[i] = far.get(j, 1) - 1          # number of events matched
     return accepted, rejected, r
